@@ -65,6 +65,7 @@ CONTAINER_BAD = {
     "matrix_not_square": lambda c, add, addm: addm([[0.1, 0.0, 0.0], [0.0, 0.1, 0.0]], "cov"),
     "matrix_1d": lambda c, add, addm: addm([0.1, 0.2, 0.3], "cov"),
     "cor_diag_not_one": lambda c, add, addm: addm([[1.0, 0.1, 0.0], [0.1, 0.9, 0.0], [0.0, 0.0, 1.0]], "cor", err_val=GOOD3),
+    "cor_diag_not_one_scalar_error": lambda c, add, addm: addm([[1.0, 0.1, 0.0], [0.1, 0.9, 0.0], [0.0, 0.0, 1.0]], "cor", err_val=0.1),          # one uncertainty for all points: the same check applies
     "cor_without_errors": lambda c, add, addm: addm(COR3, "cor"),
     "cor_err_size": lambda c, add, addm: addm(COR3, "cor", err_val=[0.1, 0.2]),
     "cov_with_err_val": lambda c, add, addm: addm(COR3, "cov", err_val=GOOD3),
